@@ -1,24 +1,33 @@
 #!/bin/bash
 # tools/seedall.sh [dir...] - re-run every independently written change kept under seeded/ against the current checks:
-# each patch that still applies to /repo HEAD is applied, the quick tier of the checks named in its meta.json
-# is run (until one reports it), and the patch is undone. One line per seed; nothing is written under seeded/.
+# each patch that still applies to /repo HEAD is applied in a scratch worktree, the quick tier of the checks named in
+# its meta.json is run against that worktree (VERIF_REPO; until one reports it). One line per seed; /repo, evidence/
+# and seeded/ are not touched. SEEDALL_JOBS seeds are checked at a time (default 3).
 set -u
 cd "$(dirname "$0")/.."
 . ./env.sh
-[ -z "$(git -C /repo status --porcelain)" ] || { echo "/repo is not clean"; exit 2; }
 dirs=("$@"); [ ${#dirs[@]} -gt 0 ] || dirs=(seeded/*/)
-for d in "${dirs[@]}"; do
-  d=${d%/}; n=$(basename "$d")
-  [ -f "$d/patch.diff" ] || continue
-  if ! git -C /repo apply --check "$PWD/$d/patch.diff" 2>/dev/null; then echo "$n: does not apply to HEAD any more"; continue; fi
-  git -C /repo apply "$PWD/$d/patch.diff"
+one() {
+  d=${1%/}; n=$(basename "$d")
+  [ -f "$d/patch.diff" ] || return
+  wt=/tmp/sa-$n
+  git -C /repo worktree remove --force $wt 2>/dev/null
+  git -C /repo worktree add -q --detach $wt HEAD
+  if ! git -C $wt apply "$PWD/$d/patch.diff" 2>/dev/null; then echo "$n: does not apply to HEAD any more"; git -C /repo worktree remove --force $wt; return; fi
   res="MISSED"
   for c in $(jq -r '.checks_run[]' "$d/meta.json" 2>/dev/null); do
-    o=$(timeout 3000 ./run.sh "$c" quick 2>&1); rc=$?
+    o=$(VERIF_REPO=$wt timeout 3000 ./run.sh "$c" quick 2>&1); rc=$?
+    if [ $rc -eq 2 ]; then res="BUILD FAILED"; break; fi
     if [ $rc -eq 1 ] && echo "$o" | grep -q '^VIOLATION'; then
       res="caught by $c: $(echo "$o" | grep -m1 'class=' | sed 's/ case=.*//' | tr -s ' ')"; break
     fi
   done
-  git -C /repo checkout -- .
+  git -C /repo worktree remove --force $wt
   echo "$n: $res"
+}
+jobs=${SEEDALL_JOBS:-3}
+for d in "${dirs[@]}"; do
+  while [ "$(jobs -rp | wc -l)" -ge "$jobs" ]; do sleep 0.5; done
+  one "$d" &
 done
+wait
